@@ -292,6 +292,10 @@ def run_property(mod, tier):
             sys.stderr.write(f"  [{v['bucket']}] {v['message'][:400]}\n")
 
     # evidence
+    sa = sorted(k[3:] for k in merged.classes if k.startswith("sa:"))
+    for k in list(merged.classes):
+        if k.startswith("sa:"):
+            del merged.classes[k]
     samples = merged.samples or getattr(mod, "FALLBACK_SAMPLES", [])
     cov = {
         "evaluations": merged.evaluations,
@@ -305,6 +309,7 @@ def run_property(mod, tier):
         "inconclusive_budget": merged.inconclusive_budget,
         "exhaustive": bool(cfg.get("exhaustive", False)) and not merged.inconclusive_budget,
         "exhaustive_cases": merged.exhaustive_cases,
+        **({"slot_alternatives_covered": len(sa), "slot_alternatives_total": getattr(mod, "SLOT_ALTS_TOTAL", None)} if sa else {}),
         "notes": merged.notes[:20],
         "shards": cfg.get("nshards", env.NSHARDS),
         "repo": env.REPO,
